@@ -595,6 +595,37 @@ class Folder:
 
     def call(self, e, env):
         name = dotted(e.func)
+        if name in ('getattr', 'setattr', 'hasattr') and name not in env and not e.keywords and not any(isinstance(a, ast.Starred) for a in e.args) \
+                and len(e.args) in ((2, 3) if name == 'getattr' else ((3,) if name == 'setattr' else (2,))):
+            o_ = self.ev(e.args[0], env)
+            if isinstance(o_, dict) and '__attrs__' in o_:
+                n_ = self.ev(e.args[1], env)
+                if not isinstance(n_, str):
+                    raise Unfoldable('%s with a computed name that is not a string' % name)
+                props_ = o_.get('__props__', {})
+                if name == 'setattr':
+                    v_ = self.ev(e.args[2], env)
+                    if n_ in props_:
+                        if props_[n_][1] is None:
+                            raise Raised('AttributeError', e)
+                        self.call_method(props_[n_][1], o_, [v_], {})
+                        return None
+                    o_[n_] = v_
+                    if n_ not in o_['__attrs__']:
+                        o_['__attrs__'] = tuple(o_['__attrs__']) + (n_,)
+                    return None
+                has_ = n_ in o_['__attrs__'] or n_ in props_ or n_ in o_.get('__methods__', {})
+                if name == 'hasattr':
+                    return has_
+                if n_ in props_ and props_[n_][0] is not None:
+                    return self.call_method(props_[n_][0], o_, [], {})
+                if n_ in o_['__attrs__']:
+                    return o_[n_]
+                if n_ in o_.get('__methods__', {}):
+                    return BoundMethod(o_['__methods__'][n_], o_)
+                if len(e.args) == 3:
+                    return self.ev(e.args[2], env)
+                raise Raised('AttributeError', e)
         if self.ext_refs and not any(isinstance(a, ast.Starred) for a in e.args):
             if name in ('functools.partial', 'partial') and e.args:
                 import functools as _ft
